@@ -190,18 +190,17 @@ var ruleDynCalls = &core.Rule{ID: "R01.3", Min: 4,
 						continue
 					}
 					s.Bad(key, c.Pos(ci.Pos()), "call through a function value of unknown origin (may be nil)")
-				case *ssa.Extract:
-					lk, ok := v.Tuple.(*ssa.Lookup)
-					okMap := ok && cm.isSnifferMap(lk.X) && lk.CommaOk
+				case *ssa.Extract, *ssa.Call:
+					lk := cm.lookupOf(cc.Value)
 					guarded := false
-					if okMap {
+					if lk != nil {
 						for _, de := range core.DominatingConds(ci.Block()) {
-							if ex, ok := de.Cond.(*ssa.Extract); ok && ex.Tuple == ssa.Value(lk) && ex.Index == 1 && de.Val {
+							if lk.found(de) {
 								guarded = true
 							}
 						}
 					}
-					s.Check(okMap && guarded, key, c.Pos(ci.Pos()), "sniffer found in the map (ok edge)", "call of a map lookup result without the ok test: nil function for types without a sniffer")
+					s.Check(lk != nil && guarded, key, c.Pos(ci.Pos()), "sniffer found in the table (ok / non-nil edge)", "call of a sniffer lookup result without the test that it was found: nil function for types without a sniffer")
 				case *ssa.Parameter, *ssa.FreeVar:
 					s.OK(key, c.Pos(ci.Pos()), "function parameter / capture")
 				default:
